@@ -7,7 +7,10 @@
 (*    dicts over the keys 'a','b' in BOTH insertion orders, tuples of      *)
 (*    numbers, objects of the classes A(x), B(A) (no extra field),         *)
 (*    C(A, y), and nestings of these to depth 2, each container both as a  *)
-(*    plain Python container and as pg.List / pg.Dict.                     *)
+(*    plain Python container and as pg.List / pg.Dict; plus "scan" values  *)
+(*    (to depth 4) whose first position holds something that is pg.eq but  *)
+(*    not == to its copy (an object of class D, or a container of one) and *)
+(*    whose second position differs.                                       *)
 (* 2. The documented rules of pg.eq / pg.lt / pg.hash as reference         *)
 (*    operators (type-order table, first difference; the dict rule and the *)
 (*    dict hash either as documented/coded - insertion order - or          *)
@@ -161,13 +164,25 @@ Inner == {Lv(<<>>), Lv(<<I1>>), Lv(<<I2>>), Lv(<<I1, I2>>), Dv(<<>>), D12, D21, 
          \cup (IF Thorough THEN {Lv(<<NONEv>>), Dv(<<<<KB, I2>>>>), D13, Dv(<<<<KB, Iv(3)>>, <<KA, I1>>>>),
                                  Ov(3, <<I1, I2>>), Ov(1, <<NONEv>>), Tv(<<I1, I2>>), Tv(<<>>)} ELSE {})
 InnerSmall == {Lv(<<I1>>), D12, D21, Ov(1, <<I1>>)}
+\* values that are symbolically equal to a copy of themselves but NOT equal under Python's == (an object of class D,
+\* and containers holding one): a first-difference scan has to pass over them with pg.eq, in every container kind
+Opaque == {Ov(4, <<I1>>), Lv(<<Ov(4, <<I1>>)>>), Dv(<<<<KA, Ov(4, <<I1>>)>>>>)}
+ScanTails == IF Thorough THEN {NONEv, I1, I2} ELSE {I1, I2}
+ScanLists == {Lv(<<h, e>>) : h \in Opaque, e \in ScanTails}
+             \cup (IF Thorough THEN {Lv(<<I1, h, e>>) : h \in Opaque, e \in ScanTails} ELSE {})
+ScanDicts == {Dv(<<<<KA, h>>, <<KB, e>>>>) : h \in Opaque, e \in ScanTails}
+ScanObjs == {Ov(3, <<h, e>>) : h \in Opaque, e \in ScanTails} \cup {Ov(1, <<Lv(<<h, e>>)>>) : h \in Opaque, e \in ScanTails}
+            \cup (IF Thorough THEN {Ov(1, <<Dv(<<<<KA, h>>, <<KB, e>>>>)>>) : h \in Opaque, e \in ScanTails} ELSE {})
 Lists2 == {Lv(<<x>>) : x \in Inner} \cup {Lv(<<x, e>>) : x \in InnerSmall, e \in {I1, I2}}
           \cup (IF Thorough THEN {Lv(<<x, y>>) : x \in InnerSmall, y \in InnerSmall} ELSE {})
+          \cup ScanLists
 Dicts2 == {Dv(<<<<KA, x>>>>) : x \in Inner}
           \cup (IF Thorough THEN {Dv(<<<<p[1], x>>, <<p[2], I1>>>>) : p \in {<<KA, KB>>, <<KB, KA>>}, x \in InnerSmall}
                 ELSE {})
+          \cup ScanDicts
 Objs2 == {Ov(1, <<x>>) : x \in Inner} \cup {Ov(3, <<x, y>>) : x \in InnerSmall, y \in {I1, Lv(<<I1>>)}}
          \cup (IF Thorough THEN {Ov(2, <<x>>) : x \in Inner} ELSE {})
+         \cup ScanObjs
 MisInside == IF Thorough THEN {Lv(<<MISv>>), Lv(<<MISv, I1>>), Dv(<<<<KA, MISv>>>>), Lv(<<Lv(<<MISv>>)>>)} ELSE {}
 
 Ent(v, pg) == [v |-> v, pg |-> pg]
@@ -356,4 +371,6 @@ UniverseOK ==
   /\ \E a \in Ix : SelfAtom(a, a)
   /\ \E a \in Ix, b \in Ix : a # b /\ EqRef[a][b] = 1                      \* non-trivial equivalence classes
   /\ \E a \in Ix : IsSymObj(a)
+  /\ \E a \in Ix, b \in Ix : /\ V(a) \in ScanLists /\ V(b) \in ScanLists /\ LtRef[a][b] = 1      \* scan pairs exist
+                              /\ EqV(V(a)[2][1], V(b)[2][1])
 =============================================================================
